@@ -211,6 +211,27 @@ func check(c Case, st *rig.Stats) error {
 				}
 			}
 		}
+		// a second witness with other simple values must reach a live route too (the values decide which
+		// constrained siblings are tried first)
+		for _, p := range live {
+			path, _, ok := p.Witness(c.Variant + 3)
+			if !ok {
+				continue
+			}
+			o := s.Get("GET", path)
+			if o.Panicked {
+				if !removedSomething {
+					continue
+				}
+				return rig.Violf("panic", "after step %d %s: GET %q panicked: %v; history %s", i, op, path, o.PanicVal, hist(i))
+			}
+			if o.BaseKind == "404" || o.HandlerNil {
+				return rig.Violf("live-route-404", "after step %d %s: GET %q (a witness of live %q) answered %s; live %v; history %s", i, op, path, p.Src, o.HandlerID, s.M.Live(), hist(i))
+			}
+			if sel := s.Parsed(o.Pattern); s.M.R[o.Pattern] == nil || sel == nil || !sel.Conforms(path, o.Params) {
+				return rig.Violf("selected-not-live", "after step %d %s: GET %q selected %q with %v; live %v; history %s", i, op, path, o.Pattern, o.Params, s.M.Live(), hist(i))
+			}
+		}
 		// (3) removed pairs are gone
 		gone := make([]life.PM, 0, len(s.Gone))
 		for pm := range s.Gone {
